@@ -194,21 +194,6 @@ func WireValue(r *mon.Rand, depth int, allowTags bool) *Node {
 		}
 		return v
 	}
-	if depth <= 1 && r.Intn(150) == 0 {
-		// a long array or a map with many pairs (well inside the CBOR library's default limits of 131072)
-		n := mon.Pick(r, 4097, 5000, 20000)
-		kids := make([]*Node, 0, 2*n)
-		if r.Bool() {
-			for j := 0; j < n; j++ {
-				kids = append(kids, refcbor.NInt(int64(j&0xff)))
-			}
-			return refcbor.NArr(kids...)
-		}
-		for j := 0; j < n; j++ {
-			kids = append(kids, refcbor.NInt(int64(j)), refcbor.NInt(int64(j&7)))
-		}
-		return refcbor.NMap(kids...)
-	}
 	k := r.Intn(16)
 	if depth >= 4 && k >= 10 {
 		k = r.Intn(10)
@@ -448,4 +433,23 @@ func RefSign(k RefKey, tbs []byte) []byte {
 		panic(fmt.Sprintf("gen: reference signer failed: %v", err))
 	}
 	return sig
+}
+
+// HugeValue is a long array or a map with many pairs (4 097, 5 000 or 20 000 entries; well inside the
+// CBOR library's default limits of 131 072). It is not part of WireValue: checks that multiply every
+// base message by thousands of mutants would not fit in memory with such values; the checks that
+// need it (conforming-message acceptance) add it explicitly.
+func HugeValue(r *mon.Rand) *Node {
+	n := mon.Pick(r, 4097, 5000, 20000)
+	kids := make([]*Node, 0, 2*n)
+	if r.Bool() {
+		for j := 0; j < n; j++ {
+			kids = append(kids, refcbor.NInt(int64(j&0xff)))
+		}
+		return refcbor.NArr(kids...)
+	}
+	for j := 0; j < n; j++ {
+		kids = append(kids, refcbor.NInt(int64(j)), refcbor.NInt(int64(j&7)))
+	}
+	return refcbor.NMap(kids...)
 }
